@@ -2,7 +2,7 @@
    LemmasRoots.v (Roots(): termination, completeness, cycles, topological order),
    LemmasRun.v   (RunDSL(): shape of the callback trace, error handling),
    LemmasSets.v  (sets that grow while executing: late roots, appended expressions). *)
-From Eval Require Export Model LemmasRoots LemmasRun LemmasSets.
+From Eval Require Export Model LemmasRoots LemmasRun LemmasSets LemmasOrder.
 From Coq Require Import List Bool Arith Lia Permutation Sorted.
 Import ListNotations.
 
@@ -164,4 +164,56 @@ Proof.
   - split; [discriminate|]. intro H. apply C in H. discriminate.
   - split; [intros _; now apply C| reflexivity].
   - congruence.
+Qed.
+
+(* ------------------------------------------------------------ dependency order of a whole run *)
+
+(* the roots whose dependencies are claimed to be processed first: in the execute phase
+   the roots registered before RunDSL, in the later phases every root registered when the
+   execution loop ends *)
+Definition claimed_roots (p : program) (ph : phase) : list nat :=
+  match ph with Exec => s_regs (init_state p) | _ => s_regs (final_state p) end.
+
+Definition final_roots (p : program) (ph : phase) : list nat := s_regs (final_state p).
+
+Lemma dependency_order_l p : StronglySorted (dep_ok (deps_of p) (claimed_roots p)) (fst (run_dsl p)).
+Proof. apply run_order; [reflexivity|]. intros ph H. destruct ph; [congruence| | |]; reflexivity. Qed.
+
+Lemma ss_pair {A} (R : A -> A -> Prop) t1 a t2 b t3 :
+  StronglySorted R (t1 ++ a :: t2 ++ b :: t3) -> R a b.
+Proof.
+  induction t1 as [|x t1 IH]; intro H; simpl in H; inversion H as [|y l S F]; subst; [|now apply IH].
+  rewrite Forall_forall in F. apply F. apply in_or_app. right. now left.
+Qed.
+
+Lemma dependency_order_pairs_l p t1 a t2 b t3 :
+  fst (run_dsl p) = t1 ++ a :: t2 ++ b :: t3 -> ev_phase a = ev_phase b ->
+  In (ev_root a) (claimed_roots p (ev_phase a)) -> reach (deps_of p) (ev_root a) (ev_root b) ->
+  ev_root a = ev_root b.
+Proof.
+  intros E P U Rch. pose proof (dependency_order_l p) as S. rewrite E in S. apply ss_pair in S.
+  destruct (Nat.eq_dec (ev_root a) (ev_root b)) as [X|X]; [assumption|]. exfalso. apply S. repeat split; assumption.
+Qed.
+
+(* root 0 registers root 1, which depends on 2, which depends on 3; the DSL of root 3
+   registers roots 2 and 3: all four roots end up registered, no cycle, RunDSL returns nil *)
+Definition witness_late_dep : program :=
+  mkP [mkR [] [[wsrc 1 [ARegister 1]]] true (Some false) true;
+       mkR [2] [[wsrc 2 []]] true (Some false) true;
+       mkR [3] [[wsrc 3 []]] true (Some false) true;
+       mkR [] [[wsrc 4 [ARegister 2; ARegister 3]]] true (Some false) true] [0].
+
+Lemma witness_late_dep_l :
+  snd (run_dsl witness_late_dep) = Done /\
+  s_regs (final_state witness_late_dep) = [0; 1; 2; 3] /\
+  ~ StronglySorted (dep_ok (deps_of witness_late_dep) (final_roots witness_late_dep)) (fst (run_dsl witness_late_dep)).
+Proof.
+  split; [vm_compute; reflexivity|]. split; [vm_compute; reflexivity|].
+  intro S.
+  assert (E : exists t1 t3, fst (run_dsl witness_late_dep) =
+            t1 ++ Ev Exec 2 (Some 3) Call :: [] ++ Ev Exec 3 (Some 4) Call :: t3).
+  { exists [Ev Exec 0 (Some 1) Call]. eexists. vm_compute. reflexivity. }
+  destruct E as (t1 & t3 & E). rewrite E in S. apply ss_pair in S. apply S.
+  split; [reflexivity|]. split; [vm_compute; auto|]. split; [|discriminate].
+  eapply reach_step; [|apply reach_refl]. vm_compute. now left.
 Qed.
